@@ -64,6 +64,9 @@ Model/Shutdown.vos Model/Shutdown.vok Model/Shutdown.required_vos: Model/Shutdow
 Model/Lockset.vo Model/Lockset.glob Model/Lockset.v.beautified Model/Lockset.required_vo: Model/Lockset.v 
 Model/Lockset.vio: Model/Lockset.v 
 Model/Lockset.vos Model/Lockset.vok Model/Lockset.required_vos: Model/Lockset.v 
+Model/Conc.vo Model/Conc.glob Model/Conc.v.beautified Model/Conc.required_vo: Model/Conc.v Base/Prelude.vo
+Model/Conc.vio: Model/Conc.v Base/Prelude.vio
+Model/Conc.vos Model/Conc.vok Model/Conc.required_vos: Model/Conc.v Base/Prelude.vos
 Proofs/LimiterProofs.vo Proofs/LimiterProofs.glob Proofs/LimiterProofs.v.beautified Proofs/LimiterProofs.required_vo: Proofs/LimiterProofs.v Base/Prelude.vo Model/Limiter.vo
 Proofs/LimiterProofs.vio: Proofs/LimiterProofs.v Base/Prelude.vio Model/Limiter.vio
 Proofs/LimiterProofs.vos Proofs/LimiterProofs.vok Proofs/LimiterProofs.required_vos: Proofs/LimiterProofs.v Base/Prelude.vos Model/Limiter.vos
@@ -136,6 +139,9 @@ Cases/WSPoolCase.vos Cases/WSPoolCase.vok Cases/WSPoolCase.required_vos: Cases/W
 Cases/ProbeCase.vo Cases/ProbeCase.glob Cases/ProbeCase.v.beautified Cases/ProbeCase.required_vo: Cases/ProbeCase.v Base/Prelude.vo Model/Shutdown.vo
 Cases/ProbeCase.vio: Cases/ProbeCase.v Base/Prelude.vio Model/Shutdown.vio
 Cases/ProbeCase.vos Cases/ProbeCase.vok Cases/ProbeCase.required_vos: Cases/ProbeCase.v Base/Prelude.vos Model/Shutdown.vos
+Cases/SchedCase.vo Cases/SchedCase.glob Cases/SchedCase.v.beautified Cases/SchedCase.required_vo: Cases/SchedCase.v Base/Prelude.vo Model/Conc.vo
+Cases/SchedCase.vio: Cases/SchedCase.v Base/Prelude.vio Model/Conc.vio
+Cases/SchedCase.vos Cases/SchedCase.vok Cases/SchedCase.required_vos: Cases/SchedCase.v Base/Prelude.vos Model/Conc.vos
 Props/C09.vo Props/C09.glob Props/C09.v.beautified Props/C09.required_vo: Props/C09.v Base/Prelude.vo Model/Limiter.vo Proofs/LimiterProofs.vo
 Props/C09.vio: Props/C09.v Base/Prelude.vio Model/Limiter.vio Proofs/LimiterProofs.vio
 Props/C09.vos Props/C09.vok Props/C09.required_vos: Props/C09.v Base/Prelude.vos Model/Limiter.vos Proofs/LimiterProofs.vos
